@@ -192,7 +192,11 @@ def gen(rng, tier, i):
             c = rng.choice(t)
             r = rng.random()
             scr = bomb_script('inputto').replace(';', ',') if rng.random() < 0.5 else 'rec got'
-            p.cycle(say(c, 'do %s %d %s' % ('inputto' if r < 0.7 else 'getchar', rng.choice((0, 1, 2)), scr)))
+            if rng.random() < 0.15:
+                # the efun itself fails (no such function): nothing may stay armed on the connection
+                p.cycle(say(c, 'do itn %s' % rng.choice(('it', 'gc'))))
+            else:
+                p.cycle(say(c, 'do %s %d %s' % ('inputto' if r < 0.7 else 'getchar', rng.choice((0, 1, 2)), scr)))
             if rng.random() < 0.8:
                 p.cycle(say(c, 'answer%d' % rng.randint(0, 9)))
         elif a == 'vobj':
